@@ -24,6 +24,9 @@ def enc_val(v):
             return "i%d" % v["cls"]
         if "repr" in v and len(v) == 1:
             return "n"
+        if "fn" in v and len(v) == 1 and isinstance(v["fn"], str):
+            # a module-level function (multiline_structure's dAction["type"]): nested dict {fn: <name>}
+            return "dfn~s" + enc_str(v["fn"])
         # nested dict (one level): d<key>~<val>|<key>~<val>, insertion order kept
         parts = []
         for k, x in v.items():
@@ -100,7 +103,8 @@ def replay_records(records, ncls):
     mism = []
     for k, r in enumerate(records):
         line = replies[k] if k < len(replies) else "error no reply"
-        if line == "unmodelled":
+        if line == "unmodelled" or line.startswith("err unmodelled:"):
+            # owner without a model, or an action kind / parameter type the model leaves out explicitly
             unmodelled[r["owner"]] = unmodelled.get(r["owner"], 0) + 1
             continue
         modelled += 1
